@@ -54,6 +54,20 @@ Theorem len_spec : forall s n, bibtex_len s = Ok n -> n = text_len s.
 Proof. exact len_spec_lemma. Qed.
 Print Assumptions len_spec.
 
+(* what that Spec means, compositionally: the empty string has length 0; a non-brace character
+   counts one; a stray closing brace nothing; a special character {\...} (inner braces balanced)
+   counts ONE whatever it contains; an ordinary group {...} counts its non-brace characters *)
+Theorem text_len_laws :
+  text_len [] = 0 /\
+  (forall c s, is_brace c = false -> text_len (c :: s) = S (text_len s)) /\
+  (forall s, text_len (c_rbrace :: s) = text_len s) /\
+  (forall inner s, balanced inner ->
+     text_len (c_lbrace :: c_bslash :: inner ++ c_rbrace :: s) = S (text_len s)) /\
+  (forall g s, balanced g -> bs_head g = false ->
+     text_len (c_lbrace :: g ++ c_rbrace :: s) = count_nonbrace g + text_len s).
+Proof. exact text_len_laws_lemma. Qed.
+Print Assumptions text_len_laws.
+
 (* ---- text prefix ---- *)
 
 (* the text prefix of n has text length min(n, length) -- for every string and every integer *)
@@ -103,6 +117,18 @@ Print Assumptions substring_spec.
 Theorem substring_zero : forall s l, bibtex_substring s 0 l = [].
 Proof. exact substring_start_zero. Qed.
 Print Assumptions substring_zero.
+
+(* the same without the Spec: a positive start is plain 1-based selection clamped at the end,
+   a negative start is the mirror image (counted from the end, selecting towards the beginning) *)
+Theorem substring_positive : forall s start len, (1 <= start)%Z ->
+  bibtex_substring s start len = firstn (Z.to_nat len) (skipn (Z.to_nat (start - 1)) s).
+Proof. exact substring_positive_lemma. Qed.
+Print Assumptions substring_positive.
+
+Theorem substring_mirror : forall s k l, (0 < k)%Z ->
+  bibtex_substring s (- k) l = rev (bibtex_substring (rev s) k l).
+Proof. exact substring_mirror_lemma. Qed.
+Print Assumptions substring_mirror.
 
 Theorem substring_contiguous : forall s start len, exists a b, s = a ++ bibtex_substring s start len ++ b.
 Proof. exact substring_contiguous_lemma. Qed.
